@@ -55,7 +55,16 @@ impl<D: Data, B: Backend> VecZnxDft<D, B> {
     /// This is a zero-copy conversion that changes only the type tag;
     /// the underlying data buffer is moved as-is.
     pub fn into_big(self) -> VecZnxBig<D, B> {
-        VecZnxBig::<D, B>::from_data(self.data, self.n, self.cols, self.size)
+        // Same buffer, same shape, narrower-or-equal scalar: the big view fits whenever the DFT view did.
+        assert!(size_of::<B::ScalarBig>() <= size_of::<B::ScalarPrep>());
+        VecZnxBig::<D, B> {
+            data: self.data,
+            n: self.n,
+            cols: self.cols,
+            size: self.size,
+            max_size: self.size,
+            _phantom: PhantomData,
+        }
     }
 }
 
@@ -154,9 +163,21 @@ impl<B: Backend> VecZnxDft<DeviceBuf<B>, B> {
 /// Owned `VecZnxDft` backed by a backend-owned buffer.
 pub type VecZnxDftOwned<B> = VecZnxDft<DeviceBuf<B>, B>;
 
-impl<D: Data, B: Backend> VecZnxDft<D, B> {
-    /// Constructs a `VecZnxDft` from raw parts without validation.
+impl<D: DataRef, B: Backend> VecZnxDft<D, B> {
+    /// Constructs a `VecZnxDft` from raw parts.
+    ///
+    /// # Panics
+    ///
+    /// Panics if the buffer holds fewer than `n * cols * size` scalars or is not aligned for the scalar type.
     pub fn from_data(data: D, n: usize, cols: usize, size: usize) -> Self {
+        super::znx_base::assert_from_data_fits(
+            "VecZnxDft",
+            data.as_ref(),
+            n,
+            cols.checked_mul(size),
+            size_of::<B::ScalarPrep>(),
+            align_of::<B::ScalarPrep>(),
+        );
         Self {
             data,
             n,
